@@ -8,7 +8,8 @@ from __future__ import annotations
 import fnmatch
 import re
 
-from .compare import Bag, BagKnownExtras, SetOf, Merge, PrefixThenSet, OneOf, Any, Ambiguous
+from .compare import (Bag, BagKnownExtras, SetOf, Merge, PrefixThenSet, OneOf, Any, Ambiguous,
+                      HeadThenMerge)
 
 F_RESIDUE = 'C05-form-annotations-survive-extension-removal'
 F_SCOPE = 'C04-form-annotations-ignore-scope'
@@ -441,6 +442,17 @@ class Model:
                                            for t in xf.get('tags', [])]
                                     xp += [pron_image(p) for p in xf.get('pronunciations', [])]
                     forms.append(self.form_image(f, xt, xp, fid=fid))
+                # forms that in-scope extensions add to this word (ordered within their
+                # document; how the documents interleave is not stated anywhere)
+                added = []
+                for x, xe in xents:
+                    mine = [self.form_image(xf, [], [], fid=fid) for xf in xe.get('forms', [])
+                            if not xf.get('external')]
+                    if mine:
+                        added.append(mine)
+                if added:
+                    forms = HeadThenMerge(forms[0], [forms[1:]] + added,
+                                          ('form', 'id', 'script'))
                 groups = [[K(sp, s['id']) for s in e.get('senses', [])
                            if not s.get('external')]]
                 for x, xe in xents:
